@@ -7,7 +7,7 @@
    object level, in C14's LexProofs / LitStringProofs / RealProofs / ObjectRtProofs). *)
 From LV Require Import Base.Bytes Base.Sx Model.Obj Model.Writer Model.Parser Model.Save Model.Xref Model.Loader
   Model.Utf Gen.Lex Proofs.LexProofs Proofs.ObjectRtProofs Proofs.SaveProofs Spec.SaveSpec Proofs.LoadProofs
-  Proofs.LoadProofsFile Proofs.LoadProofsXref Proofs.LoadProofsTable.
+  Proofs.LoadProofsFile Proofs.LoadProofsXref Proofs.LoadProofsTable Proofs.LoadProofsAgain.
 
 Local Open Scope N_scope.
 
@@ -173,11 +173,11 @@ Theorem C01_xref_table_roundtrip :
 Proof. exact xref_table_roundtrip. Qed.
 
 (* The whole-file statement (DESIGN: C01_roundtrip and C01_again) for both formats is C01_full below.
-   PROVED: the first cycle for the cross-reference TABLE format (C01_roundtrip_table and its reading
-   C01_roundtrip_table_same).  NOT proved: (a) the cross-reference STREAM format -- missing is the
-   stream content written by xstream_content read back through Xref.decode_xref_plain and the
-   composition with it (every other piece, (1)-(11), is format independent); (b) the second cycle
-   (savable (reloaded_table d), which needs "normalisation keeps well-formedness, types and nesting"). *)
+   PROVED for the cross-reference TABLE format: the first cycle (C01_roundtrip_table and its reading
+   C01_roundtrip_table_same) and the second cycle (C01_again_table).  NOT proved: the cross-reference
+   STREAM format -- missing is the stream content written by xstream_content read back through
+   Xref.decode_xref_plain and the composition with it (every other piece, (1)-(11), is format
+   independent). *)
 Definition bookkeeping : list bytes :=
   [K_Type; Save.K_Size; Save.K_W; Save.K_Index; K_Length; Save.K_Prev; K_Filter].
 Definition is_xref_stream (o : obj) : bool :=
@@ -227,6 +227,25 @@ Proof.
     + apply bytes_eqb_eq in E. subst k. exfalso. apply Hk. right. left. reflexivity.
     + apply bytes_eqb_neq in E. rewrite FilterProofsDict.dict_get_set_other by exact E. reflexivity.
 Qed.
+
+(* (13) C01_again, table format.  The reloaded document is in the domain again and outside the known
+   class (normalisation keeps well-formedness, types, nesting), so a further cycle succeeds, and it
+   returns the same version, identifiers, objects and max_id: from the first reload on the cycle is
+   the identity on the objects.  (Only the size bound of the second file stays a hypothesis: normal
+   forms can differ in length from the original spelling.) *)
+Theorem C01_again_table :
+  forall d, savable d -> known_deep d = false -> small_file XTable d -> small_file XTable (reloaded_table d) ->
+    load (save_table d) = LOk (reloaded_table d) XTTable /\
+    load (save_table (reloaded_table d)) = LOk (reloaded_table (reloaded_table d)) XTTable /\
+    d_version (reloaded_table (reloaded_table d)) = d_version d /\
+    d_objects (reloaded_table (reloaded_table d)) = d_objects (reloaded_table d) /\
+    d_max_id (reloaded_table (reloaded_table d)) = d_max_id (reloaded_table d).
+Proof. exact load_save_table_again. Qed.
+
+Theorem C01_reloaded_in_domain :
+  forall d, savable d -> known_deep d = false ->
+    savable (reloaded_table d) /\ known_deep (reloaded_table d) = false.
+Proof. intros d S K. split; [apply savable_reloaded; exact S | apply known_deep_reloaded; exact K]. Qed.
 
 (* non-vacuity of the main theorem: the example document meets every hypothesis *)
 Theorem C01_example_domain :
@@ -284,5 +303,7 @@ Print Assumptions C01_trailer_roundtrip.
 Print Assumptions C01_xref_table_roundtrip.
 Print Assumptions C01_roundtrip_table.
 Print Assumptions C01_roundtrip_table_same.
+Print Assumptions C01_again_table.
+Print Assumptions C01_reloaded_in_domain.
 Print Assumptions C01_example_domain.
 Print Assumptions C01_known_class_witness.
